@@ -263,3 +263,21 @@ func VxHashPtr(p unsafe.Pointer, seed uint64) uint64 {
 	}
 	return VxHashU64(uint64(uintptr(p)), seed)
 }
+
+// ---- structural intrinsics used by the janitor harness (C15). On the native
+// side the goroutine really runs; the harness passes what one tick / the
+// finalizer does as a fallback, and structural facts come from the model.
+func VxRunSpawned(i int, fallback func()) {
+	if fallback != nil {
+		fallback()
+	}
+}
+func VxRunFinalizer(i int, fallback func()) {
+	if fallback != nil {
+		fallback()
+	}
+}
+func VxSpawnReaches(i int, p any) bool { return VxRT.next("vx.reaches") != 0 }
+func VxFinalizerOn(p any) bool         { return VxRT.next("vx.finalizer") != 0 }
+func VxChanClosed(ch any) bool         { return VxRT.next("vx.closed") != 0 }
+func VxTickerNanos() int64             { return int64(VxRT.next("vx.ticker")) }
